@@ -412,6 +412,15 @@ func RandDoc(r *Rand) GenDoc {
 	if r.P(1, 8) {
 		return BoundaryDoc(seed)
 	}
+	if r.P(1, 9) {
+		base := Document(seed)
+		if r.P(1, 4) {
+			base = PagerDoc(seed)
+		}
+		if d, ok := Degenerate(r, base); ok {
+			return d
+		}
+	}
 	if r.P(1, 25) {
 		if v, ok := boundary(r, 100000); ok && v >= 512 {
 			return AsciiPrefixDoc(seed, v+r.Range(1, 200))
